@@ -196,6 +196,12 @@ def swalk (h : SHeap) (head : Nat) : Nat → Nat → List Nat
   | 0, _ => []
   | fuel + 1, pos => if pos = head then [] else pos :: swalk h head fuel (h.next pos)
 def slistToList (h : SHeap) (fuel head : Nat) : List Nat := swalk h head fuel (h.next head)
+/-- `slist_empty(head)` / `igris::slist::empty()` -/
+def slistEmpty (h : SHeap) (head : Nat) : Bool := h.next head == head
+/-- `slist_size(head)`: counts the nodes `slist_for_each` visits -/
+def slistSize (h : SHeap) (fuel head : Nat) : Nat := (slistToList h fuel head).length
+/-- `slist_in(head, finded)`: is `finded` among the nodes `slist_for_each` visits -/
+def slistIn (h : SHeap) (fuel head fnd : Nat) : Bool := (slistToList h fuel head).contains fnd
 /-- `igris::slist::move_front(obj)` after `fix: slist::move_front unlinks the
 node from this list first`: find the predecessor in this list, unlink, add first -/
 def slistUnlinkFrom (h : SHeap) (head n : Nat) : Nat → Nat → SHeap
